@@ -146,12 +146,12 @@ impl Whirlpool {
     ensures final(self).protocol_fee_owed_a == 0, final(self).protocol_fee_owed_b == 0,
         *final(self) == (Whirlpool { protocol_fee_owed_a: 0, protocol_fee_owed_b: 0, ..*old(self) }),
 //@ end
-//@ fn state/whirlpool.rs update_fee_rate in=/^impl Whirlpool \{/ -> r tags=C19
+//@ fn state/whirlpool.rs update_fee_rate in=/^impl Whirlpool \{/ -> r tags=C19 canary
     ensures
         fee_rate > 60_000 ==> r == err::<()>(ErrorCode::FeeRateMaxExceeded) && *final(self) == *old(self),
         fee_rate <= 60_000 ==> r is Ok && *final(self) == (Whirlpool { fee_rate: fee_rate, ..*old(self) }),
 //@ end
-//@ fn state/whirlpool.rs update_protocol_fee_rate in=/^impl Whirlpool \{/ -> r tags=C19
+//@ fn state/whirlpool.rs update_protocol_fee_rate in=/^impl Whirlpool \{/ -> r tags=C19 canary
     ensures
         protocol_fee_rate > 2_500 ==> r == err::<()>(ErrorCode::ProtocolFeeRateMaxExceeded) && *final(self) == *old(self),
         protocol_fee_rate <= 2_500 ==> r is Ok && *final(self) == (Whirlpool { protocol_fee_rate: protocol_fee_rate, ..*old(self) }),
@@ -161,7 +161,7 @@ impl Whirlpool {
 //@ end
 /// C11: changing one reward's emission rate first settles ALL rewards up to now (the freshly computed growths are stored and the shared clock moves), then the
 /// new rate applies to the indexed reward only
-//@ fn state/whirlpool.rs update_emissions in=/^impl Whirlpool \{/ -> r tags=C11
+//@ fn state/whirlpool.rs update_emissions in=/^impl Whirlpool \{/ -> r tags=C11 canary
     ensures
         index >= 3 ==> r == err::<()>(ErrorCode::InvalidRewardIndex) && *final(self) == *old(self),
         index < 3 ==> r is Ok && final(self).reward_last_updated_timestamp == timestamp
